@@ -16,7 +16,20 @@ import (
 // small concrete candidate values chosen around the field boundaries (byte values that are also
 // leading / trailing bytes of a neighbouring number).
 func ZZH_C03_digest_binds_fields() {
-	symbolic := zz.Choice("mode", 2) == 0
+	mode := zz.Choice("mode", 3)
+	if mode == 2 {
+		// the service pair itself: two IBTPs that differ only in where From ends and To begins
+		pairs := [][2]string{{"1357:chX:s1", "1356:chB:s2"}, {"1357:chX:s", "11356:chB:s2"}, {"1357:chX:s11", "356:chB:s2"}, {"1357:chX:s1", "1356:chB:s22"}}
+		pa, pb2 := pairs[zz.Choice("pairA", len(pairs))], pairs[zz.Choice("pairB", len(pairs))]
+		payload, _ := (&pb.Payload{Hash: []byte{7}}).Marshal()
+		d1, e1 := zzDigest(&pb.IBTP{From: pa[0], To: pa[1], Index: 3, Type: pb.IBTP_INTERCHAIN, Payload: payload}, pb.TransactionStatus_BEGIN)
+		d2, e2 := zzDigest(&pb.IBTP{From: pb2[0], To: pb2[1], Index: 3, Type: pb.IBTP_INTERCHAIN, Payload: payload}, pb.TransactionStatus_BEGIN)
+		zz.Assert("C03.digest.computed", e1 == nil && e2 == nil)
+		zz.Tag("C03.F-digest-pair-boundary", true)
+		zz.Assert("C03.digest.equal-only-for-the-same-service-pair", !zz.EqBytes(d1, d2) || (pa[0] == pb2[0] && pa[1] == pb2[1]))
+		return
+	}
+	symbolic := mode == 0
 	type fields struct {
 		idx  uint64
 		typ  pb.IBTP_Type
